@@ -24,6 +24,9 @@
 (* idempotence on, batches never expire, so the flush step has no timeout   *)
 (* exit while the leaders are unreachable -- FlushBounded = FALSE models    *)
 (* that and TLC shows the liveness property failing exactly there.          *)
+(* Named deviation (open finding C19-no-leave-after-connection-closed-at-   *)
+(* stop): action LeaveSkippedAfterConnLoss, enabled by ConnLossAtClose;     *)
+(* TLC shows LeftIfReachable failing exactly there.                         *)
 (***************************************************************************)
 EXTENDS Naturals, Sequences, FiniteSets, TLC
 
@@ -36,6 +39,8 @@ CONSTANTS
   FlushBounded,  \* producer: the flush ends by delivery or batch expiry
   CommitGivesUp, \* the final commit gives up when no coordinator is known while closing (TRUE: the code as fixed by
                  \* b2bc6cc; FALSE: the earlier behaviour -- it retried for ever)
+  ConnLossAtClose, \* the brokers may close the consumer's connections at the very instant of stop() (TRUE only in the model
+                 \* variant that exhibits open finding C19-no-leave-after-connection-closed-at-stop)
   SwallowCancel  \* Fetcher.close swallows the CancelledError of a per-node task cancelled in its retry back-off
                  \* (TRUE: the code as fixed by f14b6ee; FALSE: the error escaped stop(), client.close was skipped)
 
@@ -122,6 +127,17 @@ Leave ==
   /\ sub' = "await"
   /\ UNCHANGED <<phase, step, live, timers, conns, joined, coordOk, raised, inBackoff, rebDone, hasAssign>>
 
+\* Named deviation (open finding C19-no-leave-after-connection-closed-at-stop): the first request of GroupCoordinator.close()
+\* -- the closing OffsetCommit, or the LeaveGroup itself -- fails with a connection error because the broker has just closed
+\* the connection; _send_req marks the coordinator dead, _maybe_leave_group then sends nothing although the coordinator is
+\* up and a reconnect would succeed.  No wait is spent (the failure is immediate).
+LeaveSkippedAfterConnLoss ==
+  /\ ConnLossAtClose
+  /\ phase = "closing" /\ Cur = "coord" /\ sub \in {"lastcommit", "leave"}
+  /\ left' = FALSE /\ reachAtLeave' = coordOk
+  /\ sub' = "await"
+  /\ UNCHANGED <<phase, step, live, timers, conns, joined, coordOk, raised, waits, inBackoff, rebDone, hasAssign>>
+
 \* ---- producer: flush raced against the sender's death ---------------------------------------------
 Flush ==
   /\ phase = "closing" /\ Cur = "sender" /\ sub = "flush"
@@ -164,7 +180,7 @@ CloseFetchRaises ==
   /\ raised' = TRUE /\ phase' = "stopped"
   /\ UNCHANGED <<step, sub, timers, conns, joined, coordOk, left, reachAtLeave, waits, inBackoff, rebDone, hasAssign>>
 
-Next == Churn \/ Env \/ StopCall \/ LastCommit \/ RebalanceCommit \/ Leave \/ Flush \/ FlushSkipped \/ SenderDies \/ CloseComp \/ CloseFetchRaises
+Next == Churn \/ Env \/ StopCall \/ LastCommit \/ RebalanceCommit \/ Leave \/ LeaveSkippedAfterConnLoss \/ Flush \/ FlushSkipped \/ SenderDies \/ CloseComp \/ CloseFetchRaises
 Spec == Init /\ [][Next]_vars
 LiveSpec == Spec /\ WF_vars(LastCommit) /\ WF_vars(Leave) /\ WF_vars(Flush) /\ WF_vars(FlushSkipped) /\ WF_vars(CloseComp) /\ WF_vars(CloseFetchRaises)
 
